@@ -4,7 +4,7 @@ predicates that the driver also evaluates on the real code's results.
 `WF l` = "strictly sorted, valid items only": what every Resource built through the API holds
 (`newSchemaless_wf`, `merge_wf`).
 -/
-import Otel.C19.Lemmas
+import Otel.C19.LemmasEnv
 namespace Otel.C19
 open Otel Otel.C05 Otel.C05.Spec Otel.C19.Spec
 
@@ -256,6 +256,68 @@ theorem env_roundtrip (ps : List (Bytes × Bytes)) (hne : ps ≠ []) (hk : ∀ p
   simp only [envRef, hpairs, hnil, if_true, List.append_nil, Bool.false_eq_true, if_false] at hspec
   exact ⟨hpairs, hspec.1, hspec.2⟩
 
+/-- **the environment parser is the inverse of the serialiser, under the exact predicate on keys**
+(`Spec.keyOK`: unchanged by `strings.TrimSpace`, no `,`, no `=` — otherwise ANY bytes, incl. the empty
+key and non-UTF-8; values: arbitrary bytes, percent-encoded): rendering any list of such pairs
+(also the empty list) and handing it to the detector gives back exactly those pairs, hence the
+resource built from them, without error. -/
+theorem env_roundtrip_general (ps : List (Bytes × Bytes)) (hk : ∀ p ∈ ps, keyOK p.1 = true) :
+    envPairs (renderEnv ps) = (ps.map (fun p => ⟨p.1, .str p.2⟩), false) ∧
+    (fromEnv (renderEnv ps) []).1 = ⟨contents (ps.map (fun p => ⟨p.1, .str p.2⟩)), []⟩ ∧
+    (fromEnv (renderEnv ps) []).2.1 = none := by
+  have hpairs : envPairs (renderEnv ps) = (ps.map (fun p => ⟨p.1, .str p.2⟩), false) := by
+    unfold envPairs pairsOf
+    rw [trimSpace_renderEnv ps hk]
+    cases hps : ps with
+    | nil => rfl
+    | cons p0 rest =>
+      rw [← hps]
+      have hne : ps ≠ [] := by rw [hps]; simp
+      have hrne : renderEnv ps ≠ [] := by
+        obtain ⟨tl, e⟩ := renderEnv_head p0 rest
+        rw [hps, e]; simp
+      have hsplit : splitOn 0x2C (renderEnv ps) = ps.map renderPair := by
+        apply splitOn_join
+        · simpa using hne
+        · intro x hx b hb
+          obtain ⟨p, hp, e⟩ := List.mem_map.mp hx
+          subst e
+          exact renderPair_no_comma p (hk p hp) b hb
+      simp only [hrne, if_false, hsplit]
+      have h1 : (ps.map renderPair).filterMap pairKV = ps.map (fun p => (⟨p.1, .str p.2⟩ : KV)) := by
+        clear hsplit hrne hne hps
+        induction ps with
+        | nil => rfl
+        | cons p rest ih =>
+          simp only [List.map_cons, List.filterMap_cons, pairKV_renderPair' p (hk p (by simp))]
+          rw [ih (fun z hz => hk z (by simp [hz]))]
+      have h2 : (ps.map renderPair).any (fun p => (cut 0x3D p).isNone) = false := by
+        apply List.any_eq_false.mpr
+        intro x hx
+        obtain ⟨p, hp, e⟩ := List.mem_map.mp hx
+        subst e
+        simp [renderPair, cut_append 0x3D p.1 _ (keyOK_parts (hk p hp)).2.2.2]
+      rw [h1, h2]
+  have hnil : trimSpace [] = [] := by decide
+  have hspec := env_parse_spec (renderEnv ps) []
+  simp only [envRef, hpairs, hnil, if_true, List.append_nil, Bool.false_eq_true, if_false] at hspec
+  exact ⟨hpairs, hspec.1, hspec.2⟩
+
+/-- **… and only under it**: every key the parser ever produces satisfies `keyOK` (it is a trimmed,
+comma- and equals-free piece of the input), so a list with any other key cannot come back; together
+with `env_roundtrip_general`: a list of pairs survives the round trip iff all its keys are `keyOK`. -/
+theorem env_roundtrip_iff (ps : List (Bytes × Bytes)) :
+    envPairs (renderEnv ps) = (ps.map (fun p => ⟨p.1, .str p.2⟩), false) ↔ ∀ p ∈ ps, keyOK p.1 = true := by
+  refine ⟨fun h p hp => ?_, fun hk => (env_roundtrip_general ps hk).1⟩
+  have hmem : (⟨p.1, .str p.2⟩ : KV) ∈ (envPairs (renderEnv ps)).1 := by
+    rw [h]; exact List.mem_map.mpr ⟨p, hp, rfl⟩
+  exact pairsOf_keys_ok _ _ hmem
+
+/-- whatever OTEL_RESOURCE_ATTRIBUTES holds, every attribute key of the detected resource is a
+`keyOK` key (or `service.name`) -/
+theorem env_keys_wellformed (attrsEnv : Bytes) : ∀ kv ∈ (envPairs attrsEnv).1, keyOK kv.key = true :=
+  pairsOf_keys_ok _
+
 /-- **equal resources have equal map identities**: `Equal` *is* the comparison of `Equivalent()`
 (one function in the model); by C05 it holds iff both resources hold the same mapping under the
 representation's identity, whatever the schema URLs; and a resource equals itself unless a
@@ -342,6 +404,9 @@ theorem detect_partial_failure_keeps_rest (init : Bytes) (ds : List (Option DetO
 /-- every explicitly given detector returns nil or a well-formed resource -/
 def WFopts (opts : List Opt) : Prop := ∀ o ∈ opts, ∀ ds, o = Opt.withDetectors ds → WFds ds
 
+/-- every built-in detector returns nil or a well-formed resource -/
+def WFenv (env : Env) : Prop := ∀ d r, (env.builtin d).res = some r → WF r.attrs
+
 private theorem optDetectors_eq_ref (env : Env) (o : Opt) : optDetectors env o = optDetRef env o := by
   cases o with
   | withSchemaURL s => rfl
@@ -349,7 +414,8 @@ private theorem optDetectors_eq_ref (env : Env) (o : Opt) : optDetectors env o =
   | withAttributes kvs => simp [optDetectors, optDetRef, newSchemaless_eq]
   | withFromEnv =>
     obtain ⟨h1, h2⟩ := env_parse_spec env.attrs env.svc
-    simp [optDetectors, optDetRef, h1, h2]
+    simp [optDetectors, optDetRef, envDetRef, h1, h2]
+  | withBuiltin o => cases o <;> rfl
 
 private theorem foldl_applyOpt (env : Env) (opts : List Opt) (cfg : Cfg) :
     (opts.foldl (applyOpt env) cfg).detectors = cfg.detectors ++ opts.flatMap (optDetectors env) ∧
@@ -363,7 +429,7 @@ private theorem foldl_applyOpt (env : Env) (opts : List Opt) (cfg : Cfg) :
     rw [h1, h2]
     cases o <;> simp [applyOpt, optDetectors]
 
-private theorem wfds_flatMap (env : Env) (opts : List Opt) (h : WFopts opts) :
+private theorem wfds_flatMap (env : Env) (opts : List Opt) (h : WFopts opts) (he : WFenv env) :
     WFds (opts.flatMap (optDetRef env)) := by
   intro d hd o hdo r hr
   obtain ⟨opt, hopt, hmem⟩ := List.mem_flatMap.mp hd
@@ -375,15 +441,21 @@ private theorem wfds_flatMap (env : Env) (opts : List Opt) (h : WFopts opts) :
     subst hmem; cases hdo; cases hr
     exact contents_wf kvs
   | withFromEnv =>
-    simp only [optDetRef, List.mem_singleton] at hmem
+    simp only [optDetRef, envDetRef, List.mem_singleton] at hmem
     subst hmem; cases hdo; cases hr
     exact contents_wf _
+  | withBuiltin b =>
+    simp only [optDetRef, List.mem_filterMap, Option.map_eq_some_iff] at hmem
+    obtain ⟨_, _, bd, _, e⟩ := hmem
+    subst e; cases hdo
+    exact he bd r hr
 
 /-- **resource.New, in the form the oracle checks on the real code** (`Spec.newRef`): applying the
 options in order and running `detect` equals the `Detect` reference on the concatenation of every
 option's detectors in option order — nothing is skipped or re-ordered, an option or detector that
 is given again counts again at its later position — started from the LAST schema URL option. -/
-theorem new_spec (env : Env) (opts : List Opt) (h : WFopts opts) : newResource env opts = newRef env opts := by
+theorem new_spec (env : Env) (opts : List Opt) (h : WFopts opts) (he : WFenv env) :
+    newResource env opts = newRef env opts := by
   obtain ⟨h1, h2⟩ := foldl_applyOpt env opts {}
   unfold newResource newRef schemaOf
   simp only [List.nil_append] at h1 h2
@@ -392,14 +464,14 @@ theorem new_spec (env : Env) (opts : List Opt) (h : WFopts opts) : newResource e
   have : opts.flatMap (optDetectors env) = opts.flatMap (optDetRef env) := by
     congr 1; funext o; exact optDetectors_eq_ref env o
   rw [this]
-  exact detect_spec _ _ (wfds_flatMap env opts h)
+  exact detect_spec _ _ (wfds_flatMap env opts h he)
 
 /-- **later options and later detectors win**, on the option path of `New`: every key is bound to
 the value of the last kept detector — over all options, in option order — that binds it.  In
 particular a detector configured again as the last option prevails over everything configured
 between its two occurrences: whatever `pre` is, `New(pre…, WithDetectors(d))` binds every key of
 `d`'s resource to `d`'s value. -/
-theorem new_later_option_wins (env : Env) (opts : List Opt) (h : WFopts opts) :
+theorem new_later_option_wins (env : Env) (opts : List Opt) (h : WFopts opts) (he : WFenv env) :
     (∀ k, lookup (newResource env opts).res.attrs k =
       lookupLast (((opts.flatMap (optDetRef env)).filterMap keptRes).flatMap (·.attrs)) k) ∧
     (∀ (pre : List Opt) (r : Res) (e : Option Err), opts = pre ++ [Opt.withDetectors [some ⟨some r, e⟩]] →
@@ -408,9 +480,9 @@ theorem new_later_option_wins (env : Env) (opts : List Opt) (h : WFopts opts) :
   have hall : ∀ k, lookup (newResource env opts).res.attrs k =
       lookupLast (((opts.flatMap (optDetRef env)).filterMap keptRes).flatMap (·.attrs)) k := by
     intro k
-    rw [new_spec env opts h]
-    have := detect_later_wins (schemaOf opts) (opts.flatMap (optDetRef env)) (wfds_flatMap env opts h) k
-    rw [detect_spec _ _ (wfds_flatMap env opts h)] at this
+    rw [new_spec env opts h he]
+    have := detect_later_wins (schemaOf opts) (opts.flatMap (optDetRef env)) (wfds_flatMap env opts h he) k
+    rw [detect_spec _ _ (wfds_flatMap env opts h he)] at this
     exact this
   refine ⟨hall, ?_⟩
   intro pre r e hopts he k v hkv
@@ -428,6 +500,216 @@ theorem new_later_option_wins (env : Env) (opts : List Opt) (h : WFopts opts) :
   rw [lookupLast_append, lookupLast_eq_lookup hr.1, hkv]
   rfl
 
+
+/-! ### session 3: `detect` = left fold of `Merge`; StringDetector; built-in options; Default() -/
+
+private theorem mergeFold_cons (acc : Res × Bool) (x : Option Res) (xs : List (Option Res)) :
+    mergeFold acc (x :: xs) = mergeFold ((merge (some acc.1) x).1, acc.2 || (merge (some acc.1) x).2) xs := rfl
+
+private theorem mergeFold_flag (rs : List (Option Res)) (r : Res) (f : Bool) :
+    mergeFold (r, f) rs = ((mergeFold (r, false) rs).1, f || (mergeFold (r, false) rs).2) := by
+  induction rs generalizing r f with
+  | nil => simp [mergeFold]
+  | cons x xs ih =>
+    rw [mergeFold_cons, mergeFold_cons, ih _ (f || _), ih _ (false || _)]
+    simp [Bool.or_assoc]
+
+private theorem detectStep_fields (st : DetState) (d : Option DetOut) :
+    (detectStep st d).res = (match mergedArg d with | none => st.res | some r => (merge (some st.res) r).1) ∧
+    (detectStep st d).anyErr = (st.anyErr || (detErr d).isSome ||
+      (match mergedArg d with | none => false | some r => (merge (some st.res) r).2)) ∧
+    (detectStep st d).partialSeen = (st.partialSeen || (detErr d).any (·.isPartial)) ∧
+    (detectStep st d).conflictSeen = (st.conflictSeen || (detErr d).any (·.isConflict) ||
+      (match mergedArg d with | none => false | some r => (merge (some st.res) r).2)) := by
+  cases d with
+  | none => simp [detectStep, mergedArg, detErr]
+  | some o =>
+    obtain ⟨res, err⟩ := o
+    cases err with
+    | none => cases hm : (merge (some st.res) res).2 <;> simp [detectStep, mergedArg, detErr, joinErr, hm]
+    | some e =>
+      cases hp : e.isPartial with
+      | false => simp [detectStep, mergedArg, detErr, joinErr, hp]
+      | true =>
+        have hres : (joinErr st e).res = st.res := rfl
+        cases hm : (merge (some st.res) res).2 <;> simp [detectStep, mergedArg, detErr, joinErr, hp, hm]
+
+private theorem foldl_detectStep_mergeFold (ds : List (Option DetOut)) (st : DetState) :
+    ds.foldl detectStep st =
+      { res := (mergeFold (st.res, false) (ds.filterMap mergedArg)).1,
+        anyErr := st.anyErr || !(ds.filterMap detErr).isEmpty || (mergeFold (st.res, false) (ds.filterMap mergedArg)).2,
+        partialSeen := st.partialSeen || (ds.filterMap detErr).any (·.isPartial),
+        conflictSeen := st.conflictSeen || (ds.filterMap detErr).any (·.isConflict) ||
+          (mergeFold (st.res, false) (ds.filterMap mergedArg)).2 } := by
+  induction ds generalizing st with
+  | nil => simp [mergeFold]
+  | cons d ds ih =>
+    obtain ⟨f1, f2, f3, f4⟩ := detectStep_fields st d
+    rw [List.foldl_cons, ih, f1, f2, f3, f4]
+    cases hma : mergedArg d with
+    | none =>
+      cases hde : detErr d <;>
+        simp [hma, hde, Bool.or_assoc]
+    | some r =>
+      have hfl := mergeFold_flag (ds.filterMap mergedArg) (merge (some st.res) r).1 (merge (some st.res) r).2
+      cases hde : detErr d <;>
+        simp [hma, hde, mergeFold_cons, hfl, Bool.or_assoc, Bool.or_comm, Bool.or_left_comm]
+
+/-- **`detect` is the left fold of `Merge`** over the resources of the detectors that are not nil and
+did not fail with a non-partial error — every one of them, nil resources and attribute-less
+resources included, in detector order, starting from `&Resource{schemaURL: init}` — and its error
+is the join of the detectors' errors and of every conflict raised by one of these `Merge` calls;
+the schema URL is emptied exactly when that joined error Is ErrSchemaURLConflict.  No
+well-formedness hypothesis: this is about the loop, whatever `Merge` does. -/
+theorem detect_is_merge_fold (init : Bytes) (ds : List (Option DetOut)) :
+    let f := mergeFold (⟨[], init⟩, false) (ds.filterMap mergedArg)
+    let errs := ds.filterMap detErr
+    (detect init ds).anyErr = (!errs.isEmpty || f.2) ∧
+    (detect init ds).partialSeen = errs.any (·.isPartial) ∧
+    (detect init ds).conflictSeen = (errs.any (·.isConflict) || f.2) ∧
+    (detect init ds).res =
+      (if (!errs.isEmpty || f.2) && (errs.any (·.isConflict) || f.2) then { f.1 with schema := [] } else f.1) := by
+  intro f errs
+  have h := foldl_detectStep_mergeFold ds { res := ⟨[], init⟩ }
+  unfold detect
+  simp only [Bool.false_or] at h
+  rw [h]
+  simp only
+  split <;> simp_all [f, errs]
+
+/-- **`StringDetector`**: one attribute `k = f()` under the given schema URL when `f` succeeds and the
+key is non-empty; otherwise no resource and a non-partial error (so `detect` skips it). -/
+theorem stringDetector_spec (schema k : Bytes) (f : Option Bytes) :
+    stringDetector schema k f = stringDetRef schema k f ∧
+    ∀ r, (stringDetector schema k f).res = some r → WF r.attrs := by
+  cases f with
+  | none => exact ⟨rfl, fun r hr => by simp [stringDetector] at hr⟩
+  | some v =>
+    by_cases hk : k = []
+    · subst hk
+      exact ⟨by simp [stringDetector, stringDetRef, valid], fun r hr => by simp [stringDetector, valid] at hr⟩
+    · have hv : valid ⟨k, .str v⟩ = true := by
+        cases k with
+        | nil => exact absurd rfl hk
+        | cons a as => simp [valid]
+      have hwf : WF [(⟨k, .str v⟩ : KV)] := ⟨by simp [SSorted], fun x hx => by rw [List.mem_singleton.mp hx]; exact hv⟩
+      have e : stringDetector schema k (some v) = ⟨some ⟨[⟨k, .str v⟩], schema⟩, none⟩ := by
+        simp [stringDetector, hv, newWithAttributes_eq, contents_of_wf hwf]
+      rw [e]
+      exact ⟨by simp [stringDetRef, hk], fun r hr => by cases hr; exact hwf⟩
+
+/-- **a composite built-in option is the sequence of its single options** (`WithOS` = `WithOSType`,
+`WithOSDescription`; `WithProcess` = the eight `WithProcess…`; `WithContainer` = `WithContainerID`),
+wherever it stands among the other options: none of the detectors is dropped or moved. -/
+theorem new_builtin_composite (env : Env) (pre post : List Opt) (o : BOpt) :
+    newResource env (pre ++ [Opt.withBuiltin o] ++ post) =
+      newResource env (pre ++ (optSingles o).map Opt.withBuiltin ++ post) := by
+  have key : ∀ cfg : Cfg, ((optSingles o).map Opt.withBuiltin).foldl (applyOpt env) cfg =
+      applyOpt env cfg (.withBuiltin o) := by
+    intro cfg
+    cases o <;> simp [optSingles, applyOpt, optDetectors, builtinDetectors]
+  unfold newResource
+  simp only [List.foldl_append, List.foldl_cons, List.foldl_nil, key]
+
+private theorem defaultDetectors_eq_ref (env : Env) :
+    defaultDetectors env = [some (env.builtin .defaultServiceName), envDetRef env, some (env.builtin .telemetrySDK)] := by
+  obtain ⟨h1, h2⟩ := env_parse_spec env.attrs env.svc
+  simp [defaultDetectors, envDetRef, h1, h2]
+
+private theorem wfds_default (env : Env) (he : WFenv env) :
+    WFds [some (env.builtin .defaultServiceName), envDetRef env, some (env.builtin .telemetrySDK)] := by
+  intro d hd o hdo r hr
+  simp only [List.mem_cons, List.mem_nil_iff, or_false] at hd
+  rcases hd with h | h | h
+  · subst h; cases hdo; exact he _ r hr
+  · subst h; simp only [envDetRef, Option.some.injEq] at hdo; subst hdo; cases hr; exact contents_wf _
+  · subst h; cases hdo; exact he _ r hr
+
+/-- **Default(), first call** (`Spec.defaultRef`): the resource is the `Detect` reference over the default
+service name, the environment and the telemetry-SDK detector in this order, it becomes the cached
+value, and `otel.Handle` is called once per undecodable escape plus once iff `Detect` reported an error. -/
+theorem default_first_call (env : Env) (he : WFenv env) :
+    (defaultCall none env).1 = (defaultRef env).res ∧
+    (defaultCall none env).2.2 = some (defaultRef env).res ∧
+    (defaultCall none env).2.1 = (fromEnv env.attrs env.svc).2.2 + (if (defaultRef env).anyErr then 1 else 0) := by
+  have h : detect [] (defaultDetectors env) = defaultRef env := by
+    rw [defaultDetectors_eq_ref]; exact detect_spec _ _ (wfds_default env he)
+  simp [defaultCall, h]
+
+private theorem defaultSeq_cached (r : Res) (envs : List Env) : defaultSeq (some r) envs = envs.map (fun _ => r) := by
+  induction envs with
+  | nil => rfl
+  | cons e es ih => simp [defaultSeq, defaultCall, ih]
+
+/-- **Default() is computed once** (`Spec.defaultSeqOK`): whatever the environment is at later calls,
+every call returns what the first call computed from the environment it saw. -/
+theorem default_cached (envs : List Env) (he : ∀ e ∈ envs, WFenv e) :
+    defaultSeqOK envs (defaultSeq none envs) = true := by
+  cases envs with
+  | nil => rfl
+  | cons e es =>
+    obtain ⟨h1, h2, _⟩ := default_first_call e (he e (by simp))
+    simp [defaultSeqOK, defaultSeq, h1, h2, defaultSeq_cached]
+
+/-- **precedence inside Default()**: telemetry-SDK attributes win over the environment, which wins over
+the default service name (so OTEL_SERVICE_NAME / OTEL_RESOURCE_ATTRIBUTES override
+`unknown_service:<exe>` but cannot override `telemetry.sdk.*`). -/
+theorem default_precedence (env : Env) (sv ts : Res) (hsv : env.builtin .defaultServiceName = ⟨some sv, none⟩)
+    (hts : env.builtin .telemetrySDK = ⟨some ts, none⟩) (hwsv : WF sv.attrs) (hwts : WF ts.attrs) (k : Bytes) :
+    lookup (defaultCall none env).1.attrs k =
+      (lookup ts.attrs k).or ((lookup (fromEnv env.attrs env.svc).1.attrs k).or (lookup sv.attrs k)) := by
+  have hwf : WFds [some (env.builtin .defaultServiceName), envDetRef env, some (env.builtin .telemetrySDK)] := by
+    intro d hd o hdo r hr
+    simp only [List.mem_cons, List.mem_nil_iff, or_false] at hd
+    rcases hd with h | h | h
+    · subst h; cases hdo; rw [hsv] at hr; cases hr; exact hwsv
+    · subst h; simp only [envDetRef, Option.some.injEq] at hdo; subst hdo; cases hr; exact contents_wf _
+    · subst h; cases hdo; rw [hts] at hr; cases hr; exact hwts
+  have h : (defaultCall none env).1 = (detect [] (defaultDetectors env)).res := rfl
+  rw [h, defaultDetectors_eq_ref, detect_later_wins _ _ hwf k, (env_parse_spec env.attrs env.svc).1]
+  have hkept : keptRes (envDetRef env) = some ⟨(envRef env.attrs env.svc).1, []⟩ := by
+    unfold envDetRef keptRes
+    cases (envRef env.attrs env.svc).2 <;> simp
+  have hk1 : keptRes (some (env.builtin .defaultServiceName)) = some sv := by rw [hsv]; rfl
+  have hk3 : keptRes (some (env.builtin .telemetrySDK)) = some ts := by rw [hts]; rfl
+  simp only [List.filterMap_cons, List.filterMap_nil, hk1, hk3, hkept, List.flatMap_cons, List.flatMap_nil,
+    List.append_nil]
+  have hwe : WF (envRef env.attrs env.svc).1 := contents_wf _
+  rw [lookupLast_append, lookupLast_append, lookupLast_eq_lookup hwts.1, lookupLast_eq_lookup hwsv.1,
+    lookupLast_eq_lookup hwe.1, Option.or_assoc]
+
+private theorem mem_foldl_upsert (kvs acc : List KV) (x : KV)
+    (h : x ∈ kvs.foldl (fun m kv => upsert kv m) acc) : x ∈ acc ∨ x ∈ kvs := by
+  induction kvs generalizing acc with
+  | nil => exact Or.inl h
+  | cons k ks ih =>
+    rcases ih (upsert k acc) h with h' | h'
+    · rcases mem_upsert h' with e | h''
+      · exact Or.inr (by simp [e])
+      · exact Or.inl h''
+    · exact Or.inr (by simp [h'])
+
+/-- **a nil `*Resource` is the empty resource** for every accessor, `Equal` ignores the schema URL, and
+`Merge(nil, nil)`, `Empty()`, `NewSchemaless()` and a resource built from invalid attributes only are
+all that same empty resource. -/
+theorem nil_resource_is_empty (emit : Value → Bytes) (o : Option Res) (s : Bytes) (a : Res) :
+    resAttributes none = resAttributes (some Res.empty) ∧ resSchemaURL none = resSchemaURL (some Res.empty) ∧
+    resLen none = 0 ∧ resString emit none = resString emit (some Res.empty) ∧
+    resEqual none o = resEqual (some Res.empty) o ∧ resEqual o none = resEqual o (some Res.empty) ∧
+    resEqual (some a) o = resEqual (some { a with schema := s }) o ∧
+    (merge none none).1 = Res.empty ∧ newSchemaless [] = Res.empty ∧
+    (∀ l : List KV, (∀ x ∈ l, valid x = false) → newSchemaless l = Res.empty) := by
+  refine ⟨rfl, rfl, rfl, rfl, rfl, rfl, rfl, rfl, rfl, fun l hl => ?_⟩
+  rw [newSchemaless_eq]
+  have : contents l = [] := by
+    unfold contents
+    apply List.filter_eq_nil_iff.mpr
+    intro x hx
+    rcases mem_foldl_upsert l [] x hx with h | h
+    · cases h
+    · simp [hl x h]
+  rw [this]; rfl
+
 /-! ### non-vacuity -/
 
 example : merge (some ⟨[⟨[0x61], .int 1⟩, ⟨[0x62], .str [0x78]⟩], [1]⟩) (some ⟨[⟨[0x62], .str [0x79]⟩, ⟨[0x63], .bool true⟩], [2]⟩) =
@@ -441,7 +723,7 @@ example : fromEnv [0x6b, 0x3d, 0x20, 0x25, 0x34, 0x31, 0x20, 0x2c, 0x6b, 0x32, 0
 example : cleanKey [0x6b, 0x2e, 0x31] = true ∧
     renderEnv [([0x6b], [0x20, 0xff]), ([0x6b, 0x32], [])] = [0x6b, 0x3d, 0x25, 0x32, 0x30, 0x25, 0x46, 0x46, 0x2c, 0x6b, 0x32, 0x3d] := by decide
 /-- `New(WithDetectors(a, b, a))`: the detector `a` given again after `b` wins -/
-example : (newResource ⟨[], []⟩ [.withDetectors [some ⟨some ⟨[⟨[0x6b], .int 1⟩], []⟩, none⟩, some ⟨some ⟨[⟨[0x6b], .int 2⟩], []⟩, none⟩,
+example : (newResource { attrs := [], svc := [] } [.withDetectors [some ⟨some ⟨[⟨[0x6b], .int 1⟩], []⟩, none⟩, some ⟨some ⟨[⟨[0x6b], .int 2⟩], []⟩, none⟩,
       some ⟨some ⟨[⟨[0x6b], .int 1⟩], []⟩, none⟩]]).res = ⟨[⟨[0x6b], .int 1⟩], []⟩ := by decide
 /-- ok(s/1) ; fatal ; partial(s/2, conflicting) ; nil detector ; ok(nil resource) -/
 example : detect [] [some ⟨some ⟨[⟨[0x61], .bool true⟩], [1]⟩, none⟩, some ⟨some ⟨[⟨[0x62], .bool true⟩], []⟩, some ⟨false, false⟩⟩,
@@ -449,5 +731,27 @@ example : detect [] [some ⟨some ⟨[⟨[0x61], .bool true⟩], [1]⟩, none⟩
     { res := ⟨[⟨[0x61], .bool false⟩, ⟨[0x63], .str [0x78]⟩], []⟩, anyErr := true, partialSeen := true, conflictSeen := true } := by decide
 example : (newSchemaless [⟨[0x6b], .int 1⟩, ⟨[0x6b], .invalid⟩, ⟨[], .str [0x76]⟩, ⟨[0x61], .bool true⟩]).attrs =
     [⟨[0x61], .bool true⟩] := by decide
+
+/-- a fatal detector, a nil resource and an attribute-less resource carrying a schema URL: the fold sees the last two -/
+example : (detect [] [some ⟨some ⟨[⟨[0x61], .bool true⟩], []⟩, none⟩, some ⟨some ⟨[⟨[0x62], .bool true⟩], [1]⟩, some ⟨false, false⟩⟩,
+      some ⟨none, none⟩, some ⟨some ⟨[], [2]⟩, none⟩]).res = ⟨[⟨[0x61], .bool true⟩], [2]⟩ := by decide
+example : stringDetector [1] [0x6b] (some [0x76]) = ⟨some ⟨[⟨[0x6b], .str [0x76]⟩], [1]⟩, none⟩ ∧
+    stringDetector [1] [] (some [0x76]) = ⟨none, some ⟨false, false⟩⟩ := by decide
+private def exEnv : Env where
+  attrs := [0x74, 0x3d, 0x65]
+  svc := [0x73]
+  builtin := fun d => match d with
+    | .defaultServiceName => ⟨some ⟨[⟨serviceNameKey, .str [0x75]⟩], [1]⟩, none⟩
+    | .telemetrySDK => ⟨some ⟨[⟨[0x74], .str [0x67, 0x6f]⟩], [1]⟩, none⟩
+    | _ => ⟨none, none⟩
+/-- Default(): the environment overrides the default service name, not the SDK attributes; the second call is cached -/
+example : defaultSeq none [exEnv, { attrs := [], svc := [] }] =
+    [⟨[⟨serviceNameKey, .str [0x73]⟩, ⟨[0x74], .str [0x67, 0x6f]⟩], [1]⟩,
+     ⟨[⟨serviceNameKey, .str [0x73]⟩, ⟨[0x74], .str [0x67, 0x6f]⟩], [1]⟩] := by decide
+
+/-- keys the first round-trip theorem did not reach: empty, non-ASCII, inner blank; and keys that are not `keyOK` -/
+example : keyOK [] = true ∧ keyOK [0xC5, 0xA1] = true ∧ keyOK [0x61, 0x20, 0x62] = true ∧ keyOK [0xff] = true ∧
+    keyOK [0x20, 0x61] = false ∧ keyOK [0x61, 0xC2, 0xA0] = false ∧ keyOK [0x61, 0x3D] = false := by decide
+example : renderEnv [([], [0x20]), ([0x61, 0x20, 0x62], [])] = [0x3d, 0x25, 0x32, 0x30, 0x2c, 0x61, 0x20, 0x62, 0x3d] := by decide
 
 end Otel.C19
